@@ -456,7 +456,7 @@ long long c_delineate_flowpathlengths_in_catchment(long long nrows,
     double * flowpathlengths)
 {
     long long ierr=0, ierr_down=0, i, ipath, idxcell_up[1], idxcell_down[1];
-    long long diff;
+    long long nxyup[2], nxydown[2];
     double squaredist, length;
 
     /* Loop through all cells in catchment area */
@@ -483,9 +483,12 @@ long long c_delineate_flowpathlengths_in_catchment(long long nrows,
             if(*idxcell_down == idxcell_outlet)
                 break;
 
-            /* Compute distance between up and down cell */
-            diff = abs(*idxcell_down - *idxcell_up);
-            squaredist = diff == 1 || diff == ncols ? 1 : 2;
+            /* Compute distance between up and down cell:
+             * diagonal step if both row and column change */
+            getnxy(ncols, *idxcell_up, nxyup);
+            getnxy(ncols, *idxcell_down, nxydown);
+            squaredist = (nxyup[0] != nxydown[0]
+                            && nxyup[1] != nxydown[1]) ? 2 : 1;
 
             /* Iterate */
             *idxcell_up = *idxcell_down;
@@ -497,9 +500,12 @@ long long c_delineate_flowpathlengths_in_catchment(long long nrows,
         ipath++;
         if(ipath < nval && *idxcell_down >= 0)
         {
-            /* Compute distance between up and down cell */
-            diff = abs(*idxcell_down - *idxcell_up);
-            squaredist = diff == 1 || diff == ncols ? 1 : 2;
+            /* Compute distance between up and down cell:
+             * diagonal step if both row and column change */
+            getnxy(ncols, *idxcell_up, nxyup);
+            getnxy(ncols, *idxcell_down, nxydown);
+            squaredist = (nxyup[0] != nxydown[0]
+                            && nxyup[1] != nxydown[1]) ? 2 : 1;
             length += sqrt(squaredist);
         }
 
